@@ -364,6 +364,14 @@ def _handler_isolation(dbg_a, dbg_b, who_reraises, order):
         apps[who].error_handler.reraise_uncaught = True
     apps.append(mk(dbg_a))
     dbg = [dbg_a, dbg_b, dbg_a]
+    try:
+        return _handler_isolation_probe(apps, who, dbg)
+    finally:
+        for app in apps:          # a case leaves nothing behind for the next one (handlers might be shared objects)
+            app.error_handler.reraise_uncaught = None
+
+
+def _handler_isolation_probe(apps, who, dbg):
     for i, app in enumerate(apps):
         req = Request(EnvironBuilder(path='/boom', headers={'Accept': 'text/plain'}).get_environ())
         try:
